@@ -159,6 +159,34 @@ func atoiSure(s string) (int, bool) {
 	return n, err == nil
 }
 
+// hugeInt classifies v as a decimal integer (optional sign, digits only) whose magnitude is at
+// least 2^64 — after dropping leading zeros either 21+ digits, or 20 digits not below
+// 18446744073709551616. No Go integer type holds such a number, so it is not an "int" in any
+// reading of the documentation. Returns +1 / -1 for a huge positive / negative value, 0 otherwise
+// (values between MaxInt64 and 2^64 are deliberately left undecided).
+func hugeInt(v string) int {
+	sign := 1
+	if v != "" && (v[0] == '+' || v[0] == '-') {
+		if v[0] == '-' {
+			sign = -1
+		}
+		v = v[1:]
+	}
+	if v == "" {
+		return 0
+	}
+	for i := 0; i < len(v); i++ {
+		if v[i] < '0' || v[i] > '9' {
+			return 0
+		}
+	}
+	v = strings.TrimLeft(v, "0")
+	if len(v) > 20 || len(v) == 20 && v >= "18446744073709551616" {
+		return sign
+	}
+	return 0
+}
+
 func evalCons(c cons, v string) int {
 	tri := func(sure, no bool) int {
 		if sure {
@@ -172,7 +200,7 @@ func evalCons(c cons, v string) int {
 	argInt := func(i int) int { n, _ := strconv.Atoi(c.Args[i]); return n }
 	switch c.Kind {
 	case "int":
-		return tri(reIntSure.MatchString(v), !reIntMaybe.MatchString(v))
+		return tri(reIntSure.MatchString(v), !reIntMaybe.MatchString(v) || hugeInt(v) != 0)
 	case "bool":
 		return tri(v == "true" || v == "false", func() bool { _, err := strconv.ParseBool(v); return err != nil }())
 	case "float":
@@ -226,19 +254,21 @@ func evalCons(c cons, v string) int {
 		if ok {
 			return tri(n >= argInt(0), true)
 		}
-		return tri(false, !reIntMaybe.MatchString(v))
+		// "Integer value must be at least N": a number below -2^64 fails under every reading (not
+		// an integer the framework can hold, and too small); a huge positive one is left undecided
+		return tri(false, !reIntMaybe.MatchString(v) || hugeInt(v) < 0)
 	case "max":
 		n, ok := atoiSure(v)
 		if ok {
 			return tri(n <= argInt(0), true)
 		}
-		return tri(false, !reIntMaybe.MatchString(v))
+		return tri(false, !reIntMaybe.MatchString(v) || hugeInt(v) > 0)
 	case "range":
 		n, ok := atoiSure(v)
 		if ok {
 			return tri(n >= argInt(0) && n <= argInt(1), true)
 		}
-		return tri(false, !reIntMaybe.MatchString(v))
+		return tri(false, !reIntMaybe.MatchString(v) || hugeInt(v) != 0)
 	case "datetime":
 		_, err := time.Parse(c.Args[0], v)
 		return tri(err == nil, true)
@@ -266,7 +296,10 @@ type consSpec struct {
 }
 
 var consPool = []consSpec{
-	{c: cons{Kind: "int"}, good: []string{"0", "7", "123456789", "42"}, bad: []string{"a", "1a", "x1", "12x", "１"}, odd: []string{"+5", "1_0", "99999999999999999999"}},
+	{c: cons{Kind: "int"}, good: []string{"0", "7", "123456789", "42"}, bad: []string{"a", "1a", "x1", "12x", "１",
+		// magnitude >= 2^64: digits only, yet no integer type holds them
+		"18446744073709551616", "99999999999999999999", "123456789012345678901234", "+340282366920938463463374607431768211456", "000018446744073709551616"},
+		odd: []string{"+5", "1_0", "9223372036854775808", "18446744073709551615", "0000000000000000000000042"}},
 	{c: cons{Kind: "bool"}, good: []string{"true", "false"}, bad: []string{"yes", "2", "tru", "falsee"}, odd: []string{"1", "T", "TRUE", "0"}},
 	{c: cons{Kind: "float"}, good: []string{"1", "12", "007"}, bad: []string{"abc", "1x2", "x", "1,5"}, odd: []string{"1e3", "inf", "NaN", "1e40", "0x1p2"}},
 	{c: cons{Kind: "alpha"}, good: []string{"abc", "Z", "Rick"}, bad: []string{"ab1", "1", "a_b", "a1b"}, odd: []string{"é", "ＡＢ"}},
@@ -275,9 +308,9 @@ var consPool = []consSpec{
 	{c: cons{Kind: "maxLen", Args: []string{"3"}}, good: []string{"a", "abc", "12"}, bad: []string{"abcd", "12345"}},
 	{c: cons{Kind: "len", Args: []string{"2"}}, good: []string{"ab", "12"}, bad: []string{"a", "abc", "1234"}},
 	{c: cons{Kind: "betweenLen", Args: []string{"2", "4"}}, good: []string{"ab", "abc", "abcd"}, bad: []string{"a", "abcde"}},
-	{c: cons{Kind: "min", Args: []string{"18"}}, good: []string{"18", "19", "100"}, bad: []string{"17", "0", "abc", "1x"}, odd: []string{"+18"}},
-	{c: cons{Kind: "max", Args: []string{"120"}}, good: []string{"120", "91", "0"}, bad: []string{"121", "1000", "abc"}, odd: []string{"+3"}},
-	{c: cons{Kind: "range", Args: []string{"18", "120"}}, good: []string{"18", "120", "91"}, bad: []string{"17", "121", "x", "9"}},
+	{c: cons{Kind: "min", Args: []string{"18"}}, good: []string{"18", "19", "100"}, bad: []string{"17", "0", "abc", "1x"}, odd: []string{"+18", "18446744073709551616", "123456789012345678901234"}},
+	{c: cons{Kind: "max", Args: []string{"120"}}, good: []string{"120", "91", "0"}, bad: []string{"121", "1000", "abc", "18446744073709551616", "123456789012345678901234"}, odd: []string{"+3", "9223372036854775808"}},
+	{c: cons{Kind: "range", Args: []string{"18", "120"}}, good: []string{"18", "120", "91"}, bad: []string{"17", "121", "x", "9", "18446744073709551616", "123456789012345678901234"}, odd: []string{"9223372036854775808"}},
 	{c: cons{Kind: "datetime", Args: []string{"2006-01-02"}}, good: []string{"2005-11-01", "1999-12-31"}, bad: []string{"2005-13-01", "20051101", "abcd", "2005-11-1"}, dash: true},
 	// regex bodies stay inside what the docs show: no ',' ';' or routing characters
 	{c: cons{Kind: "regex", Args: []string{`^[0-9]{4}$`}}, good: []string{"2022", "0001"}, bad: []string{"22", "abcd", "20222", "202x"}},
